@@ -257,6 +257,7 @@ retry:
 	if err != nil {
 		user.terminateIfEmpty()
 		log.Error(err)
+		goWeb()
 		return
 	}
 
